@@ -28,14 +28,16 @@ theorem NN.replicate (k : Nat) {c : ℚ} (hc : 0 ≤ c) : NN (Array.replicate k 
   simp only [Array.getD_eq_getD_getElem?, Array.getElem?_replicate]
   split <;> simp [hc]
 
-theorem NN.mget {D : Array ℚ} (h : NN D) (n r c : Nat) : 0 ≤ mget D n r c := by
-  unfold EaselModel.Weights.mget; simpa using h (r * n + c)
-
 theorem NN.vget {x : Array ℚ} (h : NN x) (i : Nat) : 0 ≤ vget x i := by
   unfold EaselModel.Weights.vget; simpa using h i
 
-theorem NN.mset {D : Array ℚ} (h : NN D) (n r c : Nat) {v : ℚ} (hv : 0 ≤ v) : NN (mset D n r c v) := by
-  unfold EaselModel.Weights.mset; exact h.set _ hv
+theorem NN.push {a : Array ℚ} (h : NN a) {v : ℚ} (hv : 0 ≤ v) : NN (a.push v) := by
+  intro j
+  have hj := h j
+  simp only [Array.getD_eq_getD_getElem?, Array.getElem?_push] at hj ⊢
+  split
+  · simpa using hv
+  · exact hj
 
 theorem max0_nonneg (x : ℚ) : 0 ≤ max0 x := by
   unfold max0
@@ -51,168 +53,162 @@ theorem pid_range' (m : Mode) (a b : Row) : 0 ≤ pid (α := ℚ) m a b ∧ pid 
   · rw [pid_eq m a b h]; exact ⟨pidSpec_nonneg m a b, pidSpec_le_one m a b⟩
   · unfold pid; rw [pairId_unaligned' m a b h]; simp
 
-theorem diffMx_NN (m : Mode) (rows : List Row) : NN (diffMx (α := ℚ) m rows) := by
-  intro i
-  simp only [Array.getD_eq_getD_getElem?]
-  cases h : (diffMx (α := ℚ) m rows)[i]? with
-  | none => simp
-  | some v =>
-    simp only [Option.getD_some]
-    have hm : v ∈ (diffMx (α := ℚ) m rows).toList := by
-      rw [Array.getElem?_eq_some_iff] at h
-      obtain ⟨hi, rfl⟩ := h
-      exact Array.getElem_mem_toList hi
-    unfold diffMx at hm
-    simp only [List.mem_flatMap, List.mem_map] at hm
-    obtain ⟨r, _, c, _, rfl⟩ := hm
-    split
-    · simp
-    · split
-      · have := (pid_range' m (rows.getD r []) (rows.getD c [])).2
-        simp only [ofNat_rat, Nat.cast_one]; linarith
-      · have := (pid_range' m (rows.getD c []) (rows.getD r [])).2
-        simp only [ofNat_rat, Nat.cast_one]; linarith
+/-- every stored distance (and every default) is ≥ 0 -/
+def RowsNN (rows : Array (Array ℚ)) : Prop := ∀ y x, 0 ≤ (rows.getD y #[]).getD x 0
 
-/-! ### cluster_engine -/
-
-theorem swapCols_NN {D : Array ℚ} (h : NN D) (n N a b : Nat) : NN (swapCols D n N a b) := by
-  unfold swapCols
-  apply foldl_inv NN _ _ _ h
-  intro D row hD
-  exact (hD.mset _ _ _ (hD.mget _ _ _)).mset _ _ _ (hD.mget _ _ _)
-
-theorem swapRows_NN {D : Array ℚ} (h : NN D) (n N a b : Nat) : NN (swapRows D n N a b) := by
-  unfold swapRows
-  apply foldl_inv NN _ _ _ h
-  intro D col hD
-  exact (hD.mset _ _ _ (hD.mget _ _ _)).mset _ _ _ (hD.mget _ _ _)
-
-theorem mergeCols_NN {D : Array ℚ} (h : NN D) (n N ni nj : Nat) : NN (mergeCols D n N ni nj) := by
-  unfold mergeCols
-  apply foldl_inv NN _ _ _ h
-  intro D col hD
-  have h1 := hD.mget n (N - 2) col
-  have h2 := hD.mget n (N - 1) col
-  have hv : 0 ≤ ((ofNat ni : ℚ) * mget D n (N - 2) col + ofNat nj * mget D n (N - 1) col) / ofNat (ni + nj) := by
-    simp only [ofNat_rat]; positivity
-  exact (hD.mset _ _ _ hv).mset _ _ _ hv
-
-theorem findMin_nonneg {D : Array ℚ} (h : NN D) (n N : Nat) : 0 ≤ (findMin D n N).1 := by
-  unfold findMin
-  apply foldl_inv (fun st : ℚ × Nat × Nat => 0 ≤ st.1) _ _ _ (h.mget _ _ _)
-  intro st row hst
-  apply foldl_inv (fun st : ℚ × Nat × Nat => 0 ≤ st.1) _ _ _ hst
-  intro st col hst
+theorem RowsNN.kdist {rows : Array (Array ℚ)} (h : RowsNN rows) (x y : Nat) : 0 ≤ kdist rows x y := by
+  unfold EaselModel.Weights.kdist
   split
-  · exact h.mget _ _ _
+  · simpa using h y x
+  · simpa using h x y
+
+theorem RowsNN.push {rows : Array (Array ℚ)} (h : RowsNN rows) {r : Array ℚ} (hr : ∀ x, 0 ≤ r.getD x 0) :
+    RowsNN (rows.push r) := by
+  intro y x
+  have hy := h y x
+  simp only [Array.getD_eq_getD_getElem?, Array.getElem?_push] at hy ⊢
+  split
+  · simpa [Array.getD_eq_getD_getElem?] using hr x
+  · exact hy
+
+theorem kinit_RowsNN (m : Mode) (rws : List Row) : RowsNN (kinit (α := ℚ) m rws).rows := by
+  intro y x
+  unfold kinit
+  simp only [Array.getD_eq_getD_getElem?, List.getElem?_toArray, List.getElem?_map]
+  cases h1 : (List.range rws.length)[y]? with
+  | none => simp
+  | some y' =>
+    simp only [Option.map_some, Option.getD_some, List.getElem?_toArray, List.getElem?_map]
+    cases h2 : (List.range y')[x]? with
+    | none => simp
+    | some x' =>
+      simp only [Option.map_some, Option.getD_some, ofNat_rat, Nat.cast_one]
+      have := (pid_range' m (rws.getD x' []) (rws.getD y' [])).2
+      linarith
+
+theorem kfindMin_nonneg {rows : Array (Array ℚ)} (h : RowsNN rows) (act : Array Nat) : 0 ≤ (kfindMin rows act).1 := by
+  unfold kfindMin
+  apply foldl_inv (fun st : ℚ × Nat × Nat => 0 ≤ st.1) _ _ _ (h.kdist _ _)
+  intro st rc hst
+  split
+  · exact h.kdist _ _
   · exact hst
 
-theorem moveTo_NN {D : Array ℚ} (h : NN D) (n N t p : Nat) : NN (moveTo D n N t p) := by
-  unfold moveTo
-  split
-  · exact swapRows_NN (swapCols_NN h _ _ _ _) _ _ _ _
-  · exact h
+theorem kH_nonneg (st : KState ℚ) (h : RowsNN st.rows) : 0 ≤ kH st := by
+  have := kfindMin_nonneg h st.act
+  unfold kH kMin
+  simp only [ofNat_rat]; positivity
 
-theorem branchLen_nonneg (h : ℚ) (hh : 0 ≤ h) (height : Array ℚ) (child : Int) : 0 ≤ branchLen h height child := by
-  unfold branchLen
+theorem kbranch_nonneg (n : Nat) (h : ℚ) (hh : 0 ≤ h) (hgt : Array ℚ) (c : Nat) : 0 ≤ kbranch n h hgt c := by
+  unfold kbranch
   split
   · exact max0_nonneg _
   · exact hh
 
+theorem kRow_nonneg (st : KState ℚ) (h : RowsNN st.rows) : ∀ x, 0 ≤ (kRow st).getD x 0 := by
+  intro x
+  unfold kRow
+  simp only [Array.getD_eq_getD_getElem?, Array.getElem?_map]
+  cases hx : (Array.range st.rows.size)[x]? with
+  | none => simp
+  | some x' =>
+    simp only [Option.map_some, Option.getD_some, kmerged, ofNat_rat]
+    have h1 := h.kdist (kI st) x'
+    have h2 := h.kdist (kJ st) x'
+    positivity
+
 /-- what the UPGMA loop keeps true -/
-structure UInv (st : UState ℚ) : Prop where
-  D : NN st.D
-  ld : NN st.ld
-  rd : NN st.rd
+structure KInv (st : KState ℚ) : Prop where
+  rows : RowsNN st.rows
+  nodes : ∀ nd ∈ st.nodes, 0 ≤ nd.l ∧ 0 ≤ nd.r
 
-theorem stepH_nonneg (n : Nat) (st : UState ℚ) (step : Nat) (h : NN st.D) : 0 ≤ stepH n st step := by
-  have := findMin_nonneg h n (n - step)
-  unfold stepH stepMin
-  simp only [ofNat_rat]; positivity
+theorem kstep_inv (n : Nat) (st : KState ℚ) (h : KInv st) : KInv (kstep n st) := by
+  refine ⟨?_, ?_⟩
+  · show RowsNN (st.rows.push (kRow st))
+    exact h.rows.push (kRow_nonneg st h.rows)
+  · intro nd hnd
+    have hnd' : nd ∈ (⟨kI st, kJ st, kbranch n (kH st) st.hgt (kI st), kbranch n (kH st) st.hgt (kJ st)⟩ : KNode ℚ) :: st.nodes := hnd
+    rcases List.mem_cons.mp hnd' with rfl | h'
+    · exact ⟨kbranch_nonneg _ _ (kH_nonneg st h.rows) _ _, kbranch_nonneg _ _ (kH_nonneg st h.rows) _ _⟩
+    · exact h.nodes nd h'
 
-theorem upgmaStep_inv (n : Nat) (st : UState ℚ) (step : Nat) (h : UInv st) : UInv (upgmaStep n st step) := by
-  refine ⟨?_, ?_, ?_⟩
-  · show NN (mergeCols (stepMoved n st step) n (n - step) _ _)
-    apply mergeCols_NN
-    unfold stepMoved
-    exact moveTo_NN (moveTo_NN h.D _ _ _ _) _ _ _ _
-  · show NN (st.ld.setIfInBounds _ _)
-    exact h.ld.set _ (branchLen_nonneg _ (stepH_nonneg n st step h.D) _ _)
-  · show NN (st.rd.setIfInBounds _ _)
-    exact h.rd.set _ (branchLen_nonneg _ (stepH_nonneg n st step h.D) _ _)
-
-theorem upgma_NN (n : Nat) (D0 : Array ℚ) (h : NN D0) : NN (upgma n D0).ld ∧ NN (upgma n D0).rd := by
-  have : UInv ((List.range (n - 1)).foldl (upgmaStep n) (upgmaInit n D0)) := by
-    apply foldl_inv UInv
-    · exact ⟨h, NN.replicate _ (by simp), NN.replicate _ (by simp)⟩
-    · intro st x hst; exact upgmaStep_inv n st x hst
-  exact ⟨this.ld, this.rd⟩
+theorem krun_inv (n : Nat) (st : KState ℚ) (h : KInv st) (k : Nat) : KInv (krun n st k) := by
+  induction k with
+  | zero => exact h
+  | succ k ih => exact kstep_inv n _ ih
 
 /-! ### the traversals -/
 
-theorem gscUp_NN (T : Tree ℚ) (n : Nat) (hl : NN T.ld) (hr : NN T.rd) : NN (gscUp T n) := by
-  unfold gscUp
-  apply foldl_inv NN _ _ _ (NN.replicate _ (by simp))
-  intro x k hx
-  apply hx.set
-  have h0 : 0 ≤ vget T.ld (n - 2 - k) + vget T.rd (n - 2 - k) := add_nonneg (hl.vget _) (hr.vget _)
-  have h1 : 0 ≤ (if T.left.getD (n - 2 - k) 0 > 0 then vget T.ld (n - 2 - k) + vget T.rd (n - 2 - k) + vget x (T.left.getD (n - 2 - k) 0).toNat
-      else vget T.ld (n - 2 - k) + vget T.rd (n - 2 - k)) := by
-    split
-    · exact add_nonneg h0 (hx.vget _)
-    · exact h0
-  split
-  · exact add_nonneg h1 (hx.vget _)
-  · exact h1
+theorem kup_NN (n : Nat) (created : List (KNode ℚ)) (h : ∀ nd ∈ created, 0 ≤ nd.l ∧ 0 ≤ nd.r) : NN (kup n created) := by
+  unfold kup
+  induction created using List.reverseRecOn with
+  | nil => exact NN.replicate _ (by simp)
+  | append_singleton cr nd ih =>
+    rw [List.foldl_append]
+    have hx := ih (fun x hx => h x (by simp [hx]))
+    have hnd := h nd (by simp)
+    simp only [List.foldl_cons, List.foldl_nil]
+    apply hx.push
+    have h0 : 0 ≤ nd.l + nd.r := add_nonneg hnd.1 hnd.2
+    split <;> split <;> first
+      | exact add_nonneg (add_nonneg h0 (hx.vget _)) (hx.vget _)
+      | exact add_nonneg h0 (hx.vget _)
+      | exact h0
 
-theorem sideLen_nonneg {d x : Array ℚ} (hd : NN d) (hx : NN x) (child : Array Int) (i : Nat) : 0 ≤ sideLen d child x i := by
-  unfold sideLen
-  split
-  · exact add_nonneg (hd.vget _) (hx.vget _)
-  · exact hd.vget _
+theorem lookupD_nonneg (l : List (Nat × ℚ)) (h : ∀ p ∈ l, 0 ≤ p.2) (x : Nat) : 0 ≤ lookupD l x := by
+  unfold lookupD
+  cases hf : l.find? (fun p => p.1 == x) with
+  | none => simp
+  | some p => exact h p (List.mem_of_find?_eq_some hf)
 
-theorem share_nonneg (cs : Array Nat) (child : Array Int) (xi mine total : ℚ) (i : Nat)
-    (hxi : 0 ≤ xi) (hm : 0 ≤ mine) (ht : 0 ≤ total) : 0 ≤ share cs child xi mine total i := by
-  unfold share
+theorem kside_nonneg (n : Nat) {xs : Array ℚ} (hx : NN xs) {d : ℚ} (hd : 0 ≤ d) (child : Nat) : 0 ≤ kside n xs d child := by
+  unfold kside
+  split
+  · exact add_nonneg hd (hx.vget _)
+  · exact hd
+
+theorem kshare_nonneg (n : Nat) (cs : Array Nat) (child c : Nat) (xi mine total : ℚ)
+    (hxi : 0 ≤ xi) (hm : 0 ≤ mine) (ht : 0 ≤ total) : 0 ≤ kshare n cs child c xi mine total := by
+  unfold kshare
   split
   · split <;> (simp only [ofNat_rat]; positivity)
   · positivity
 
-theorem putChild_NN (st : Array ℚ × Array ℚ) (child : Int) (v : ℚ) (h : NN st.1 ∧ NN st.2) (hv : 0 ≤ v) :
-    NN (putChild st child v).1 ∧ NN (putChild st child v).2 := by
-  unfold putChild
-  split
-  · exact ⟨h.1, h.2.set _ hv⟩
-  · exact ⟨h.1.set _ hv, h.2⟩
-
-theorem gscDownStep_NN (T : Tree ℚ) (cs : Array Nat) (hl : NN T.ld) (hr : NN T.rd) (st : Array ℚ × Array ℚ) (i : Nat)
-    (h : NN st.1 ∧ NN st.2) : NN (gscDownStep T cs st i).1 ∧ NN (gscDownStep T cs st i).2 := by
-  have hlw := sideLen_nonneg hl h.1 T.left i
-  have hrw := sideLen_nonneg hr h.1 T.right i
-  have hxi := h.1.vget i
-  have ht := add_nonneg hlw hrw
-  unfold gscDownStep
-  simp only []
-  apply putChild_NN
-  · apply putChild_NN _ _ _ h
-    exact add_nonneg (share_nonneg _ _ _ _ _ _ hxi hlw ht) (hl.vget i)
-  · exact add_nonneg (share_nonneg _ _ _ _ _ _ hxi hrw ht) (hr.vget i)
-
-theorem gscTraverse_NN (T : Tree ℚ) (n : Nat) (hl : NN T.ld) (hr : NN T.rd) : NN (gscTraverse T n) := by
-  unfold gscTraverse
-  have := foldl_inv (fun st : Array ℚ × Array ℚ => NN st.1 ∧ NN st.2) (gscDownStep T (cladesizes T n))
-    (List.range (n - 1)) (((gscUp T n).setIfInBounds 0 (ofNat 0)), Array.replicate n (ofNat 1))
-    ⟨(gscUp_NN T n hl hr).set 0 (by simp), NN.replicate _ (by simp)⟩
-    (fun st i h => gscDownStep_NN T _ hl hr st i h)
-  exact this.2
+theorem kdown_nonneg (n : Nat) (cs : Array Nat) (xs : Array ℚ) (hx : NN xs) (nodes : List (KNode ℚ))
+    (h : ∀ nd ∈ nodes, 0 ≤ nd.l ∧ 0 ≤ nd.r) : ∀ p ∈ kdown n cs xs nodes, 0 ≤ p.2 := by
+  unfold kdown
+  generalize (n + nodes.length - 1) = c0
+  suffices H : ∀ (init : List (Nat × ℚ) × Nat), (∀ p ∈ init.1, 0 ≤ p.2) →
+      ∀ p ∈ (nodes.foldl (kdownStep n cs xs) init).1, 0 ≤ p.2 from H ([], c0) (by simp)
+  induction nodes with
+  | nil => intro init hi; simpa using hi
+  | cons nd rest ih =>
+    intro init hi
+    rw [List.foldl_cons]
+    apply ih (fun x hx => h x (by simp [hx]))
+    have hnd := h nd (by simp)
+    have hxi := lookupD_nonneg init.1 hi init.2
+    have hlw := kside_nonneg n hx hnd.1 nd.I
+    have hrw := kside_nonneg n hx hnd.2 nd.J
+    have ht := add_nonneg hlw hrw
+    intro p hp
+    unfold kdownStep at hp
+    simp only [List.mem_cons] at hp
+    rcases hp with rfl | rfl | hp
+    · exact add_nonneg (kshare_nonneg _ _ _ _ _ _ _ hxi hrw ht) hnd.2
+    · exact add_nonneg (kshare_nonneg _ _ _ _ _ _ _ hxi hlw ht) hnd.1
+    · exact hi p hp
 
 theorem gscRaw_nonneg (m : Mode) (rows : List Row) : ∀ w ∈ gscRaw (α := ℚ) m rows, 0 ≤ w := by
   intro w hw
   unfold gscRaw at hw
   simp only [List.mem_map] at hw
   obtain ⟨i, _, rfl⟩ := hw
-  have hT := upgma_NN rows.length (diffMx (α := ℚ) m rows) (diffMx_NN m rows)
-  exact (gscTraverse_NN _ _ hT.1 hT.2).vget i
+  have inv := krun_inv rows.length (kinit (α := ℚ) m rows) ⟨kinit_RowsNN m rows, by intro nd h; simp [kinit] at h⟩ (rows.length - 1)
+  apply lookupD_nonneg
+  apply kdown_nonneg
+  · exact kup_NN _ _ (fun nd hnd => inv.nodes nd (List.mem_reverse.mp hnd))
+  · exact inv.nodes
 
 theorem gscRaw_length (m : Mode) (rows : List Row) : (gscRaw (α := ℚ) m rows).length = rows.length := by
   unfold gscRaw; simp
